@@ -222,21 +222,24 @@ func pairsCovered(rows [][]int, k, n int) bool {
 }
 
 // tupleSpace enumerates the tuples (input, arg1, .., argK) of one function as
-// indices into its pool. Three shapes:
+// indices into its pool. Shapes:
 //   - full: the full product n^k (k = arity+1 factors);
-//   - mixed (only when the full product exceeds the tier's cap, which happens for
-//     arity-2 functions with many option keys): the full product over the base
-//     pool, plus every option object in every single position against the full
-//     base product in the other positions, plus a strength-2 covering array over
-//     the whole pool (so every pair of values, option objects included, in every
-//     pair of positions occurs);
-//   - covering: strength-2 covering array only (arity >= 3).
+//   - covering: strength-2 covering array only (arity >= 3);
+//   - basepairs (quick tier, only when the full product exceeds the tier's cap,
+//     which happens for arity-2 functions with many option keys): the full product
+//     over the base pool plus a strength-2 covering array over the whole pool (every
+//     pair of values, option objects included, in every pair of positions occurs);
+//   - mixed (thorough tier over its cap): basepairs plus every option object in
+//     every single position against the full base product in the other positions.
+//
+// In the product shapes the input varies fastest, so the tuples that share an
+// argument vector are adjacent (the runaway rule of exec.go relies on that).
 type tupleSpace struct {
 	k, n  int
 	nbase int
-	shape string // "full" | "mixed" | "covering"
+	shape string
 	rows  [][]int
-	nA    int64 // mixed: size of the base product
+	nA    int64 // size of the base product
 	nB    int64 // mixed: size of the single-option region
 	count int64
 }
@@ -249,7 +252,7 @@ func ipow(b int64, e int) int64 {
 	return r
 }
 
-func newTupleSpace(arity, n, nbase int, fullArity int, fullCap int64) *tupleSpace {
+func newTupleSpace(arity, n, nbase int, fullArity int, fullCap int64, overCapShape string) *tupleSpace {
 	ts := &tupleSpace{k: arity + 1, n: n, nbase: nbase}
 	if arity > fullArity {
 		ts.shape = "covering"
@@ -263,17 +266,23 @@ func newTupleSpace(arity, n, nbase int, fullArity int, fullCap int64) *tupleSpac
 		ts.count = full
 		return ts
 	}
-	ts.shape = "mixed"
+	ts.shape = overCapShape
 	ts.rows = coveringArray(ts.k, n)
 	ts.nA = ipow(int64(nbase), ts.k)
-	ts.nB = int64(ts.k) * int64(n-nbase) * ipow(int64(nbase), ts.k-1)
+	if ts.shape == "mixed" {
+		ts.nB = int64(ts.k) * int64(n-nbase) * ipow(int64(nbase), ts.k-1)
+	}
 	ts.count = ts.nA + ts.nB + int64(len(ts.rows))
 	return ts
 }
 
+// digits: mixed radix decomposition, position 0 (the input) is the least
+// significant digit, then the last argument, ..., the first argument.
 func digits(i int64, base, k int) []int {
 	t := make([]int, k)
-	for c := k - 1; c >= 0; c-- {
+	t[0] = int(i % int64(base))
+	i /= int64(base)
+	for c := k - 1; c >= 1; c-- {
 		t[c] = int(i % int64(base))
 		i /= int64(base)
 	}
@@ -298,6 +307,13 @@ func (ts *tupleSpace) at(i int64) []int {
 		i %= block
 		opt := int(i / rest)
 		d := digits(i%rest, ts.nbase, ts.k-1)
+		if pos == 0 {
+			// digits() treats its position 0 specially; for an option object in the
+			// input position any bijection of the remaining positions will do
+			t := make([]int, 0, ts.k)
+			t = append(t, ts.nbase+opt)
+			return append(t, d...)
+		}
 		t := make([]int, 0, ts.k)
 		t = append(t, d[:pos]...)
 		t = append(t, ts.nbase+opt)
